@@ -40,6 +40,7 @@ const (
 	wkMutexW
 	wkMutexR
 	wkOnce
+	wkJoin
 )
 
 // Task is one simulated goroutine.
@@ -60,7 +61,8 @@ type Task struct {
 	inline int
 	steps  int
 
-	exiting bool
+	exiting  bool
+	mismatch int
 }
 
 // Config holds the per-run scheduler parameters (swarm-drawn by the engine).
@@ -508,8 +510,24 @@ func (s *Sim) enabled(t *Task) bool {
 	case wkOnce:
 		sh := s.onces[t.want]
 		return sh == nil || !sh.running
+	case wkJoin:
+		for _, o := range s.tasks {
+			if o != t && o.Workload && o.state != stDone && !(o.state == stParked && o.wk == wkJoin) {
+				return false
+			}
+		}
+		return true
 	}
 	return true
+}
+
+// JoinOthers parks the calling workload task until every other workload task has finished.
+func (s *Sim) JoinOthers(id uint32) {
+	t := s.arrive(id)
+	if t == nil {
+		return
+	}
+	s.park(t, id, wkJoin, nil)
 }
 
 // lockCycle looks for a cycle in the shadow wait-for graph.
@@ -614,9 +632,13 @@ func (s *Sim) Run() Outcome {
 		}
 		var cands []*Task
 		alive := 0
+		blocked := 0
 		for _, t := range s.tasks {
 			if t.Workload && t.state != stDone {
 				alive++
+			}
+			if t.state == stBlocked && !t.Foreign {
+				blocked++
 			}
 			if t.state == stParked && s.enabled(t) {
 				cands = append(cands, t)
@@ -667,7 +689,10 @@ func (s *Sim) Run() Outcome {
 		if len(cands) == 0 {
 			adv = s.cfg.MaxIdle - s.Idle
 			forced = true
-		} else if s.sinceAdvance >= forceAdvanceEvery {
+		} else if s.sinceAdvance >= forceAdvanceEvery && blocked > 0 {
+			// runnable tasks have been going for a long stretch of steps while others are blocked in
+			// the runtime (possibly on timers): a task that polls for their progress (a spin loop in the
+			// code under test) would otherwise starve them of simulated time
 			adv = s.cfg.MaxIdle - s.Idle
 			forced = true
 		} else if s.cfg.AdvanceDenom > 0 && len(s.cfg.TimeSteps) > 0 && s.Tape.Draw(StSched, s.cfg.AdvanceDenom) == 1 {
@@ -763,6 +788,16 @@ func (s *Sim) describeAlive() string {
 		}
 		st := [...]string{"running", "parked", "blocked", "done"}[t.state]
 		out += fmt.Sprintf(" %s:%s@%d", t.Name, st, t.point)
+		if t.state == stParked && (t.wk == wkMutexW || t.wk == wkMutexR) {
+			if sh := s.mutexes[t.want]; sh != nil {
+				if sh.writer != nil {
+					out += fmt.Sprintf("(waits for a mutex held by %s, which is %s)", sh.writer.Name, [...]string{"running", "parked", "blocked", "done"}[sh.writer.state])
+				}
+				for rd := range sh.readers {
+					out += fmt.Sprintf("(waits for a mutex read-held by %s)", rd.Name)
+				}
+			}
+		}
 	}
 	return out
 }
